@@ -483,6 +483,46 @@ func packetLoops(fn *ssa.Function) []map[*ssa.BasicBlock]bool {
 	return out
 }
 
+// namesOfDeclaredPackets: v is a list of all the keys (names) of BinaryModel.PacketsMap: a loop over it visits every declared packet
+// (by name) as a range over the map would, in an order of the helper's choosing.
+func namesOfDeclaredPackets(v ssa.Value) bool {
+	c, ok := stripIdentity(v).(*ssa.Call)
+	if !ok || theWorld == nil {
+		return false
+	}
+	isPacketsMap := func(a ssa.Value) bool {
+		ld, ok := stripIdentity(a).(*ssa.UnOp)
+		if !ok {
+			return false
+		}
+		fa, ok := ld.X.(*ssa.FieldAddr)
+		if !ok {
+			return false
+		}
+		tn, f, _, _ := fieldOf(fa)
+		return tn == "BinaryModel" && f == "PacketsMap"
+	}
+	var cands []ssa.Value
+	for _, a := range c.Call.Args {
+		if isPacketsMap(a) {
+			cands = append(cands, a)
+		}
+		if kc, ok := stripIdentity(a).(*ssa.Call); ok {
+			for _, a2 := range kc.Call.Args {
+				if isPacketsMap(a2) {
+					cands = append(cands, a2)
+				}
+			}
+		}
+	}
+	for _, m := range cands {
+		if theWorld.allKeysOf(c, m, 0) {
+			return true
+		}
+	}
+	return false
+}
+
 // basePacketLoops: the loops of fn directly over BinaryModel.Packets / BinaryModel.PacketsMap.
 func basePacketLoops(fn *ssa.Function) []map[*ssa.BasicBlock]bool {
 	var out []map[*ssa.BasicBlock]bool
@@ -543,7 +583,7 @@ func packetLoopsOf(fn *ssa.Function) []map[*ssa.BasicBlock]bool {
 				}
 			}
 		case *ssa.IndexAddr:
-			if listOfDeclaredPackets(x.X, 0, map[ssa.Value]bool{}) {
+			if listOfDeclaredPackets(x.X, 0, map[ssa.Value]bool{}) || namesOfDeclaredPackets(x.X) {
 				// the index is a loop counter: the range form (counter + 1) or a hand-written `for i := 0; i < len(list); i++`
 				var phi *ssa.Phi
 				switch ix := x.Index.(type) {
